@@ -32,7 +32,9 @@ RULE = ("(a) exhaustive: every value of the first two frame octets x canonical c
         "UTF-8 corpus (every ill-formed class, cut across frames), 'ASCII run after an open multi-octet sequence' corpus "
         "(pieces = fragments / reads / inflate calls ending after each proper prefix of a 2/3/4-octet sequence, then 1..40 "
         "ASCII octets, then the continuation octets or not, plus valid twins; NVX and pure-Python validator in both tiers), "
-        "close-payload corpus, PMCE corpus (context take-over "
+        "'control frame inside an open sequence' corpus (close with valid / ill-formed / no reason, ping/pong with non-UTF-8 "
+        "payload between text fragments ending after each proper prefix of a 2/3/4-octet sequence, plain and compressed; close "
+        "replies with reasons after a 1002/1007 failure), close-payload corpus, PMCE corpus (context take-over "
         "with verified back-references, stored/fixed/dynamic blocks, inflated text valid / ill-formed / truncated, "
         "fragmented with control frames in between, undecodable DEFLATE); (c) every stream under >=2 (exhaustive part) / "
         ">=4 (other parts) segmentations incl. 1-byte trickle and single cuts for streams <=48 octets (quick: every other "
@@ -60,6 +62,8 @@ DECIDING = {
     "compressed_messages_compared": 200, "context_takeover_streams": 50, "clause/compressed-text-invalid-utf8": 50,
     "events_in_failure_window_checked": 10,
     "ascii_after_open_sequence_checked_nvx": 1000, "ascii_after_open_sequence_checked_pure_python": 1000,
+    "control_inside_open_sequence_checked": 1000, "valid_close_inside_open_sequence_checked": 500,
+    "close_reply_after_failure_checked": 100,
 }
 ONLINE_MAX = 4096
 
@@ -703,6 +707,51 @@ def asciirun_corpus(ctx):
     return out
 
 
+def ctlinside_corpus(ctx):
+    """[(label, stream)]: control frames between the fragments of a text message whose part received so far ends
+    INSIDE a multi-octet sequence (after every proper prefix of 2/3/4-octet sequences; with permessage-deflate also
+    with the first fragment compressed and sync-flushed so that the inflated text ends there).  Control frames are
+    judged on their own: a close frame with a valid reason is a valid close (normal reply, no failure), a reason
+    that is ill-formed ON ITS OWN is a violation even if its first octets would complete the pending sequence of
+    the text message; ping/pong payloads are opaque octets.  Plus: close frames with reasons that follow a
+    1007/1002 failure (closing-handshake mode: first close frame, no later message/pong, crash-freedom)."""
+    pk = peer_key(ctx, 17)
+    trailer = enc(9, b"T", key=pk) + enc(1, b"after", key=pk)
+    out = []
+    for si, seq in enumerate(ASCII_RUN_SEQS):
+        for p in range(1, len(seq)):
+            head, rest = b"x" + seq[:p], seq[p:]
+            ctls = [("close-valid-ascii", enc(8, b"\x03\xe8bye", key=pk), True),
+                    ("close-valid-multibyte", enc(8, b"\x03\xe9" + "d\u00e9j\u00e0 \u20ac \U0001f600".encode("utf-8"), key=pk), True),
+                    ("close-code-only", enc(8, b"\x03\xe8", key=pk), True),
+                    ("close-empty", enc(8, b"", key=pk), True),
+                    ("close-valid-app-code", enc(8, b"\x0f\xa0" + b"r" * 123, key=pk), True),
+                    ("close-reason-completes-pending", enc(8, b"\x03\xe8" + rest + b"bye", key=pk), True),
+                    ("close-reason-only-continuation", enc(8, b"\x03\xe8" + rest, key=pk), True),
+                    ("close-reason-truncated", enc(8, b"\x03\xe8ok" + seq[:p], key=pk), True),
+                    ("close-reason-ff", enc(8, b"\x03\xe8\xffbye", key=pk), True),
+                    ("ping-completes-pending", enc(9, rest + b"P", key=pk), False),
+                    ("ping-binary", enc(9, b"\xff\xfe\x00\x80", key=pk), False),
+                    ("pong-binary", enc(10, b"\xc0\xaf" + rest, key=pk), False),
+                    ("ping-then-close-valid", enc(9, rest, key=pk) + enc(8, b"\x03\xe8bye", key=pk), True)]
+            shapes = [("plain", enc(1, head, fin=False, key=pk), enc(0, rest + b"y", key=pk))]
+            if ctx.pmce:
+                cs = J.Deflater().message_parts([head, rest + b"y"])
+                shapes.append(("deflate", enc(1, cs[0], fin=False, rsv=4, key=pk), enc(0, cs[1], key=pk)))
+            for shape, first, last in shapes:
+                for name, ctl, closes in ctls:
+                    out.append(("ctlinside/s%d/p%d/%s/%s" % (si, p, shape, name), first + ctl + (trailer if closes else last + trailer)))
+    # close frames with reasons after this endpoint failed the connection
+    reply = [("ascii", b"\x03\xe8ok, bye"), ("multibyte", b"\x03\xef" + "caf\u00e9 \u20ac".encode("utf-8")), ("code-only", b"\x03\xe8")]
+    fails = [("utf8-ff", enc(1, b"abc\xff", key=pk)), ("utf8-open-then-ascii", enc(1, b"x\xe2\x82", fin=False, key=pk) + enc(0, b"AAAAAAAAA", key=pk)),
+             ("utf8-truncated", enc(1, b"x\xe2\x82", key=pk)), ("rsv2", enc(9, b"p", rsv=2, key=pk)),
+             ("rsv2-inside-open", enc(1, b"x\xf0\x9f", fin=False, key=pk) + enc(9, b"p", rsv=2, key=pk))]
+    for fname, fstream in fails:
+        for rname, rp in reply:
+            out.append(("ctlinside/reply-after-failure/%s/%s" % (fname, rname), enc(9, b"L", key=pk) + fstream + enc(8, rp, key=pk)))
+    return out
+
+
 def gen_segs(stream, seedstr, cut_step=1, cut_phase=0):
     n = len(stream)
     specs = [["whole"]]
@@ -806,7 +855,8 @@ def run_shard(params, R):
                   ("corpora", _run_corpora, (env, R, tier, seed, part, parts)),
                   ("generated", _run_generated, (env, R, tier, seed, part, parts, fw)))
         if params.get("only") == "asciirun":
-            phases = (("asciirun", _run_asciirun, (env, R, tier, seed, part, parts)),)
+            phases = (("asciirun", _run_asciirun, (env, R, tier, seed, part, parts)),
+                      ("ctlinside", _run_ctlinside, (env, R, tier, seed, part, parts)))
         for name, fn, args in phases:
             t0 = time.time()
             e0 = R.counters.get("evaluations", 0)
@@ -888,6 +938,26 @@ def _run_asciirun(env, R, tier, seed, part, parts):
             R.sample({"ctx": ctx.name(), "label": label, "stream_hex": stream[:80].hex(), "segmentations": specs[:6]}, kind="corpus-asciirun", every=997)
 
 
+def _run_ctlinside(env, R, tier, seed, part, parts):
+    idx = 0
+    for ci, ctx in _asciirun_contexts(tier, seed + 1):
+        for k, (label, stream) in enumerate(ctlinside_corpus(ctx)):
+            idx += 1
+            if idx % parts != part:
+                continue
+            specs = gen_segs(stream, "i%d/%d/%d" % (seed, ci, k), cut_step=2 if tier == "quick" else 1, cut_phase=k + seed)
+            tl = run_stream(env, R, ctx, stream, specs, {"kind": "ctlinside", "ctx": ctx.to_json(), "idx": k}, label)
+            R.count("corpus_cases/ctlinside")
+            if "reply-after-failure" in label:
+                R.count("close_reply_after_failure_checked", len(specs))
+            else:
+                R.count("control_inside_open_sequence_checked", len(specs))
+                if tl.close is not None:
+                    R.count("valid_close_inside_open_sequence_checked", len(specs))
+            R.seen("ctlinside_verdicts", "%s|%s" % (label.split("/")[-1], tl.failure.clause if tl.failure else ("valid-close" if tl.close else "delivered")))
+            R.sample({"ctx": ctx.name(), "label": label, "stream_hex": stream[:80].hex()}, kind="corpus-ctlinside", every=499)
+
+
 def _validator_module():
     from autobahn.websocket import utf8validator as U
     return U.Utf8Validator.__module__
@@ -910,6 +980,7 @@ def _run_corpora(env, R, tier, seed, part, parts):
                 R.count("corpus_cases/" + name)
                 R.sample({"ctx": ctx.name(), "label": label, "stream_hex": stream[:80].hex()}, kind="corpus-" + name, every=211)
     _run_asciirun(env, R, tier, seed, part, parts)
+    _run_ctlinside(env, R, tier, seed, part, parts)
 
 
 def _run_generated(env, R, tier, seed, part, parts, fw):
@@ -951,6 +1022,8 @@ def replay(case, R):
         stream = pmce_corpus(ctx)[case["idx"]][1]
     elif kind == "asciirun":
         stream = asciirun_corpus(ctx)[case["idx"]][1]
+    elif kind == "ctlinside":
+        stream = ctlinside_corpus(ctx)[case["idx"]][1]
     else:
         stream = bytes.fromhex(case["hex"])
     specs = [case["seg"]]
